@@ -94,8 +94,10 @@ func part12(n int) {
 			big = true
 			flimit = pick(32768, 65536, 1<<20, 1<<22)
 		}
-		scfg := cfg{Client: senderClient, EnComp: comp, WComp: comp, FrameLimit: flimit, Level: level, Decomp: 1, Hooks: hooks}
-		rcfg := cfg{Client: !senderClient, EnComp: comp, WComp: comp, FrameLimit: flimit, Level: level, Decomp: decomp, Hooks: true}
+		scfg := cfg{Client: senderClient, EnComp: comp, WComp: comp, FrameLimit: flimit, Level: level, Decomp: 1, Hooks: hooks,
+			Alloc: allocKinds[rng.Intn(len(allocKinds))]}
+		rcfg := cfg{Client: !senderClient, EnComp: comp, WComp: comp, FrameLimit: flimit, Level: level, Decomp: decomp, Hooks: true,
+			Alloc: allocKinds[rng.Intn(len(allocKinds))]}
 		// the calls
 		var calls []call
 		nmsg := 1 + rng.Intn(4)
@@ -258,6 +260,8 @@ func part12(n int) {
 			}
 			oracle12(rep1, res, want, wantPongs, spliced != "", rep_)
 		}
+		rep.Stat("12:alloc:sender=" + scfg.Alloc)
+		rep.Stat("12:alloc:receiver=" + rcfg.Alloc)
 		rep.Stat(fmt.Sprintf("12:wire:comp=%v", comp))
 		rep.Stat(fmt.Sprintf("12:wire:senderClient=%v", senderClient))
 		rep.Stat(fmt.Sprintf("12:wire:framelimit=%d", flimit))
